@@ -484,7 +484,27 @@ def family_list() -> List[Any]:
     return [t1_base_chains, t1_exceptions, t2_star, t3_reexport, t4_cycles, t5_duplicates, t6_nested_packages,
             t7_moved_class_with_moved_base, t8_prefix_roots, t9_reexport_while_origin_processing, t10_double_reexport,
             t12_instance_variable_kind, t13_attribute_docstring_after_import,
-            t11_cycle_rename_and_consumer_first, t14_two_roots_facade, t16_type_checking_cycle]
+            t11_cycle_rename_and_consumer_first, t14_two_roots_facade, t16_type_checking_cycle, t17_how_all_is_written]
+
+
+def t17_how_all_is_written() -> Iterator[Dict[str, Any]]:
+    """T17: the ways a module spells its __all__ (projects.ALL_FORMS): one list or tuple literal (at the top or at the end),
+       two assignments, a literal extended by `+=` / .extend() / .append(), a concatenation, an assignment nested in an `if`.
+       What __all__ IS when the module is imported is the same in every form: two re-exported classes (the second one stands
+       in the second part of the split forms), and a star-imported library module whose __all__ leaves a public name out."""
+    from .projects import ALL_FORMS
+    for form in ALL_FORMS:
+        if form == "literal":
+            continue                    # every other family writes it that way
+        yield project([mod("p", pkg=True, ops=[frm("_impl", "X", lvl=1), frm("_impl", "Y", lvl=1)], all=["X", "Y"], allform=form),
+                       mod("_impl", 1, ops=flat(cls("X", body=[fn("meth")]), cls("Y", body=[fn("other")]))),
+                       mod("co", 1, ops=flat(frm("p._impl", "X", "A1"), frm("p._impl", "Y", "A2"), cls("D", "A1"), cls("E", "A2"))),
+                       mod("cs", 1, ops=flat(star("p"), cls("F", "X"), cls("G", "Y")))], "T17", allform=form, shape="reexport")
+        yield project([mod("p", pkg=True),
+                       mod("lib", 1, ops=flat(cls("A"), cls("B"), cls("C", body=[fn("lib_c")])), all=["A", "B"], allform=form),
+                       mod("other", 1, ops=flat(cls("C", body=[fn("other_c")]))),
+                       mod("use", 1, ops=flat(frm("other", "C", lvl=1), star("lib", lvl=1), cls("K", "C"), cls("L", "A"), cls("M", "B")))],
+                      "T17", allform=form, shape="star-origin")
 
 
 def t12_instance_variable_kind() -> Iterator[Dict[str, Any]]:
